@@ -306,6 +306,7 @@ impl NHistory {
         let connected_before = s.verif_clients().iter().any(|c| c.addr == from);
         let id_connected_before: Vec<u64> = s.verif_clients().iter().map(|c| c.client_id).collect();
         let full_before = id_connected_before.len() >= s.max_clients();
+        let attempt_before: Option<u64> = s.verif_pending().iter().find(|c| c.addr == from).map(|c| c.first_challenge_sequence);
         // authentic for the session that lives at `from`: opens under that session's client-to-server key
         let session: Option<(u64, Vec<u8>)> = s.verif_clients().iter().chain(s.verif_pending().iter()).find(|c| c.addr == from).map(|c| (c.client_id, c.user_data.to_vec()));
         let session_key: Option<([u8; 32], u64)> = session.and_then(|(id, user)| self.tokens.values().find(|t| t.id == id && t.user == user).map(|t| (t.c2s, t.protocol)));
@@ -339,6 +340,14 @@ impl NHistory {
         }
         let r = obs.as_l().map(|v| v.to_vec()).unwrap_or_default();
         let kind = r.first().and_then(|t| t.as_u64()).unwrap_or(0);
+        // C18: a repeated connection request refreshes the half-open session of its address, it does not start it over: the
+        // response to a challenge that is already on its way must still be accepted
+        let attempt_after: Option<u64> = self.world.server.as_ref().and_then(|s| s.verif_pending().iter().find(|c| c.addr == from).map(|c| c.first_challenge_sequence));
+        if let (true, Some(f0), Some(f1)) = (is_request, attempt_before, attempt_after) {
+            if f0 != f1 {
+                self.violate("C18", format!("a repeated connection request from {} started the half-open session over (first challenge {} became {}): the response to the challenge already issued is ignored, a reordered handshake never completes", from, f0, f1));
+            }
+        }
         // a valid, unmodified request from this address
         if let Some((k, i)) = genuine_of {
             if let Some(d) = self.out_c.get_mut(&k).and_then(|v| v.get_mut(i)) {
@@ -607,6 +616,11 @@ impl NHistory {
             self.violate("C07", format!("a datagram of type {:?} ended the session of connected client {}", prefix_info(&data).map(|x| x.0), k));
             self.violate("C20", format!("the session of connected client {} ended on the client side only, by a datagram of type {:?}: the server keeps it until its timeout", k, prefix_info(&data).map(|x| x.0)));
         }
+        // a connected client does not act on handshake packets (challenge, denial): re-delivered ones leave it as it was,
+        // in particular they do not refresh the timer that decides its timeout
+        if was_connected && before != after && prefix_info(&data).map(|(ty, _)| ty == 1 || ty == 2).unwrap_or(false) {
+            self.violate("C18", format!("a handshake packet of type {:?} changed the state of connected client {} (its receive timer): replayed handshake packets postpone the timeout. before {} after {}", prefix_info(&data).map(|x| x.0), k, before.to_text().chars().take(80).collect::<String>(), after.to_text().chars().take(80).collect::<String>()));
+        }
         let surfaced = match obs.as_l() {
             Some([Tree::N(1), Tree::B(p)]) => Some(p.clone()),
             _ => None,
@@ -792,6 +806,15 @@ impl NHistory {
                 if self.res.panicked {
                     self.violate("C07", "NetcodeClient::update panicked".to_string());
                     return false;
+                }
+                // failover: a client that moves on to the next listed address starts the handshake there from the request
+                if let (Some(((_, _, _, _, idx0, _), _)), Some((st1, _, _, _, idx1, _))) = (view, self.world.clients.get(&k).map(|c| c.verif_state())) {
+                    if idx1 > idx0 && st1 != 1 && st1 != 0 {
+                        self.violate("C18", format!("client {} moved from server address {} to {} and is in step {} instead of sending a connection request: the next server never issued the challenge it would answer", k, idx0, idx1, st1));
+                    }
+                    if idx1 > idx0 {
+                        self.feat("client_failover");
+                    }
                 }
                 if let (Some(((3, _, last_recv, _, _, _), now)), Some(timeout)) = (view, timeout) {
                     let after = self.world.clients.get(&k).map(|c| c.verif_state().0);
